@@ -5,12 +5,19 @@ silent_after_cancel / own_token_only for every event history, register_only_205_
 Tie: T — window shifts (AST of ValidSequenceNumber), timeout and accepted codes regenerated from /repo;
      X — predicate on a boundary product + random; event histories on real udp and tcp client.Conn (in-memory
          transport, synctest virtual time) compared line by line with the model and judged by the reference monitor.
+     Tenth round: `reuse` lines (second use of the request message of a registration; Props/C08Reuse.lean) and overlapping
+     cancellations (TestC08Coop: the real observation.Handler under the cooperative mutex overlay of the C14 check, all
+     interleavings of the critical sections of `par cancel … & cancel …` steps, each schedule judged by the reference monitor).
 """
+import json
+import os
 import random
+import re
+import subprocess
 
 from . import common
 
-MODULES = ["CoapVerif.Props.C08"]
+MODULES = ["CoapVerif.Props.C08", "CoapVerif.Props.C08Reuse"]
 GENERATED = ["Observe.lean"]
 S = 1_000_000_000
 
@@ -114,7 +121,14 @@ def gen_case(rng):
                 kinds.add("token-differs-in-length-only")
             else:
                 lines.append("arrive %d %d %s %d %s" % (tok, code, seq, t, tag()))
-        elif r < 0.88:
+        elif r < 0.80:
+            # second use of the request message of a registration whose call has returned: the application writes its next
+            # request (another token, same or shorter length) into the same message object and sends it
+            if tok in regs and regs[tok][1] in ("live", "gone"):
+                lines.append("reuse %d %d %d%s" % (tok, regs[tok][0], rng.choice([t2 for t2 in toks + [11] if t2 != tok]),
+                                                   " short" if rng.random() < 0.3 else ""))
+                kinds.add("request-message-reused-" + regs[tok][1])
+        elif r < 0.90:
             if tok in regs:
                 lines.append("cancel %d %d%s" % (tok, regs[tok][0], " done" if rng.random() < 0.3 else ""))
                 kinds.add("cancel-" + regs[tok][1])
@@ -145,6 +159,8 @@ def dl(line):
         return "arrive " + " ".join(f[1:])
     if f[0] == "cancel" and len(f) == 4:
         return "cancel %s %s" % (f[1], f[2])     # Cancel with a context that has already ended is a cancellation all the same
+    if f[0] == "reuse":
+        return " ".join(f[:4])      # which length the other token has is below the model
     if f[0] == "arrivez":
         # for the model: a message with a token no registration has
         return "arrive %d %s" % (int(f[1]) + 1000000, " ".join(f[2:]))
@@ -210,8 +226,8 @@ def explore(ctx, art):
     nvalid = len(lines)
     cases = []
     owner = [-1] * nvalid
-    for ci in range(3000 if thorough else 400):
-        cl, kinds = gen_case(rng)
+    for ci in range((3000 if thorough else 400) + len(reuse_cases())):
+        cl, kinds = reuse_cases()[ci] if ci < len(reuse_cases()) else gen_case(rng)
         cases.append((cl, kinds))
         for l in cl:
             lines.append(l)
@@ -293,10 +309,156 @@ def explore(ctx, art):
         ctx.sample({"history": cl, "kinds": sorted(kinds)})
 
 
+def reuse_cases():
+    """Second use of the request message of a registration (fixed histories; the random histories contain `reuse` lines too):
+    after the registration call has returned the application writes its next request into the same message object (another
+    token; same length or shorter), and only later cancels.  The cancellation must take effect for the token the observation
+    was REGISTERED with: nothing that arrives on it afterwards reaches the callback; an observation under the other token is
+    not touched."""
+    out = []
+    for cfg in ("udp", "tcp", "udpbw"):
+        for short in ("", " short"):
+            out.append((["cfg " + cfg, "reg 7", "arrive 7 69 5 1000 A", "reuse 7 0 8" + short, "arrive 7 69 6 2000 B", "cancel 7 0",
+                         "arrive 7 69 7 20000000 C", "arrive 8 69 1 20001000 D"], {"request-message-reused-live", "fixed"}))
+            out.append((["cfg " + cfg, "reg 8", "arrive 8 69 1 1000 A", "reg 7", "arrive 7 69 5 2000 B", "reuse 7 1 8" + short,
+                         "cancel 7 1", "arrive 8 69 2 20000000 C", "arrive 7 69 6 20001000 D", "cancel 8 0", "arrive 8 69 3 40000000 E"],
+                        {"request-message-reused-live", "reused-token-is-observed", "fixed"}))
+            out.append((["cfg " + cfg, "reg 7", "arrive 7 69 5 1000 A", "reuse 7 0 8" + short, "reuse 7 0 9", "reg 9 con", "arrive 9 69 1 2000 B",
+                         "cancel 7 0 done", "arrive 7 69 6 20000000 C", "arrive 9 69 2 20001000 D"], {"request-message-reused-live", "fixed"}))
+    return out
+
+
+# ---------------------------------------------------------------- overlapping cancellations, critical section by critical section
+
+COOP_HISTORIES = [
+    # a handle kept from an observation cancelled long ago (id 0) and the live observation that reuses its token (id 1) are
+    # cancelled together (shutdown code that cancels every handle it holds, from several goroutines)
+    "reg 7;arrive 7 5 A;cancel 7 0;reg 7;arrive 7 9 B;par cancel 7 0 & cancel 7 1;arrive 7 10 C",
+    "reg 7;cancel 7 0;reg 7;par cancel 7 1 & cancel 7 0;arrive 7 10 C;arrive 7 11 D",
+    "reg 7;cancel 7 0;reg 7;par cancel 7 0 & cancel 7 1 & cancel 7 1;arrive 7 10 C",
+    "reg 7;cancel 7 0;reg 7;cancel 7 1;reg 7;arrive 7 8 A;par cancel 7 0 & cancel 7 1 & cancel 7 2;arrive 7 10 C",
+    # the same handle cancelled twice at once; two observations with different tokens cancelled at once
+    "reg 7;arrive 7 5 A;par cancel 7 0 & cancel 7 0;arrive 7 10 C",
+    "reg 7;reg 8;par cancel 7 0 & cancel 8 1;arrive 7 10 C;arrive 8 10 D",
+    "reg 7;reg 8;cancel 7 0;reg 7;par cancel 7 0 & cancel 8 1;arrive 8 10 C;arrive 7 10 D;cancel 7 2;arrive 7 11 E",
+]
+
+
+def build_coop(ctx):
+    """the C08 harness built with C14's overlay: the RWMutex of pkg/sync.Map is the cooperative mutex"""
+    ov = os.path.join(ctx.work, "overlay_c08")
+    os.makedirs(ov, exist_ok=True)
+    mp = os.path.join(common.REPO, "pkg", "sync", "map.go")
+    src = open(mp).read()
+    nocomment = lambda t: re.sub(r"//[^\n]*", "", re.sub(r"/\*.*?\*/", "", t, flags=re.S))
+    if len(re.findall(r"\bmutex\s+sync\.RWMutex\b", nocomment(src))) != 1 or nocomment(src).count("sync.RWMutex") != 1:
+        ctx.broken.append(("correspondence", "C08 overlay: pkg/sync/map.go does not declare exactly one `mutex sync.RWMutex`", ""))
+        return None
+    new = re.sub(r"(\bmutex\s+)sync\.RWMutex\b", r"\1CoopRWMutex", src)
+    new, n = re.subn(r'\n\t"sync"\n', "\n", new, count=1)
+    if n != 1 or re.search(r"\bsync\.", nocomment(new).replace("package sync", "")):
+        ctx.broken.append(("correspondence", "C08 overlay: pkg/sync/map.go uses package sync for more than the mutex", ""))
+        return None
+    open(os.path.join(ov, "map.go"), "w").write(new)
+    open(os.path.join(ov, "zz_coop_verif.go"), "w").write(
+        open(os.path.join(common.HARNESS, "c14", "overlay", "zz_coop_verif.go.txt")).read())
+    oj = os.path.join(ctx.work, "overlay_c08.json")
+    json.dump({"Replace": {mp: os.path.join(ov, "map.go"),
+                           os.path.join(common.REPO, "pkg", "sync", "zz_coop_verif.go"): os.path.join(ov, "zz_coop_verif.go")}}, open(oj, "w"))
+    exe = os.path.join(common.WORK, "ht_c08coop.test")
+    with common.Lock():
+        rc, out = common.sh([common.GO, "test", "-c", "-tags", "verif c14coop", "-overlay", oj, "-o", exe, "./c08"],
+                            cwd=common.HARNESS, env=common.GOENV, timeout=900)
+    if rc != 0:
+        ctx.broken.append(("correspondence", "harness-build c08 (overlay)", out[-2000:]))
+        return None
+    return exe
+
+
+def run_coop(ctx, exe, lines, tag):
+    inp = os.path.join(ctx.work, tag + ".in")
+    outp = os.path.join(ctx.work, tag + ".out")
+    open(inp, "w").write("\n".join(lines) + "\n")
+    if os.path.exists(outp):
+        os.remove(outp)
+    e = dict(os.environ, VERIF_IN=inp, VERIF_OUT=outp, VERIF_SEED=str(ctx.seed), VERIF_TIER=ctx.tier)
+    try:
+        p = subprocess.run([exe, "-test.run", "^TestC08Coop$", "-test.timeout", "300s"], cwd=ctx.work, env=e,
+                           stdout=subprocess.PIPE, stderr=subprocess.STDOUT, text=True, timeout=330)
+    except subprocess.TimeoutExpired:
+        ctx.broken.append(("correspondence", "harness TestC08Coop timed out", ""))
+        return None
+    out = open(outp).read().splitlines() if os.path.exists(outp) else []
+    if p.returncode != 0 or len(out) != len(lines):
+        ctx.broken.append(("correspondence", "harness TestC08Coop failed (rc=%d)" % p.returncode, p.stdout[-3000:]))
+        return None
+    return out
+
+
+def coop_judge_lines(hist, observed):
+    """one schedule of one history, as the driver's judge reads it (the registration request is answered at once: the first
+    response is part of the `reg` line)"""
+    ops = hist.split(";")
+    obs = observed.split(" / ")
+    if len(obs) != len(ops):
+        return None
+    jl = ["cfg udp"]
+    for k, (op, o) in enumerate(zip(ops, obs)):
+        f = op.split()
+        if f[0] == "arrive":
+            op = "arrive %s 69 %s %d %s" % (f[1], f[2], (k + 1) * 1000, f[3])
+        jl.append(op + " | " + o)
+    return jl
+
+
+def coop_check(ctx, art, hists=None, report=True):
+    """Cancellations that overlap (a stale handle and the live observation on a reused token; the same handle twice; several
+    observations): every interleaving of the critical sections of the observation table, on the real net/observation.Handler
+    under the cooperative scheduler of the C14 check; each schedule's history is judged by the reference monitor.  (The model
+    takes Cancel's clean-up as ONE table operation - `Props/C08`: 'every interleaving at the granularity of ... LoadAndDelete
+    calls' - which is exactly what this part ties to the code.)"""
+    exe = build_coop(ctx)
+    if not exe or not art.get("driver"):
+        return []
+    hists = hists or COOP_HISTORIES
+    out = run_coop(ctx, exe, ["coop " + h for h in hists], "c08coop")
+    if out is None:
+        return []
+    found = []
+    nsched = 0
+    for h, line in zip(hists, out):
+        for part in line.split(" || "):
+            sched, _, observed = part.partition(" :: ")
+            nsched += 1
+            jl = coop_judge_lines(h, observed)
+            if jl is None or "panic" in observed or "bad-op" in observed:
+                found.append((h, sched, observed, "violates no-crash"))
+                continue
+            rc, judge, _ = common.pipe_lines([art["driver"], "judge"], jl)
+            if rc or len(judge) != len(jl):
+                ctx.broken.append(("model", "C08 driver run failed (coop)", ""))
+                return found
+            for l, j in zip(jl, judge):
+                if j.startswith("violates"):
+                    found.append((h, sched, observed, "%s: %s" % (l, j)))
+                    break
+    ctx.cov["evaluations"] += nsched
+    ctx.cov["coop_schedules"] = nsched
+    ctx.count("overlapping-cancellations-schedules", nsched)
+    if report:
+        for h, sched, observed, what in found[:4]:
+            clause = what.split("violates ", 1)[-1][:60]
+            ctx.violations.append(common.Violation("observe", "C08:coop:" + clause,
+                                                   "overlapping cancellations `%s` under schedule %s: observed `%s`: %s" % (h, sched, observed, what),
+                                                   {"coop": h, "schedule": sched, "observed": observed}))
+    return found
+
+
 def run(ctx):
     art = common.standard_prepare(ctx, MODULES, hx=False, test=True, generated=GENERATED)
     if art.get("test"):
         explore(ctx, art)
+        coop_check(ctx, art)
     # block-wise notifications of observations registered with options, served by a peer that answers every follow-up GET by
     # its full option set and puts its ETag on some blocks only (C04's harness): each notification must keep the Observe option
     # of its first block - without it the freshness check is skipped
@@ -316,6 +478,13 @@ def replay(ctx, rep):
             print("VIOLATION property=C08 replay=(replayed) still reproduces")
         return rc
     art = common.standard_prepare(ctx, MODULES, hx=False, test=True, generated=GENERATED)
+    if rep.get("coop"):
+        found = coop_check(ctx, art, hists=[rep["coop"]], report=False)
+        for h, sched, observed, what in found:
+            print("%s under schedule %s: observed `%s`: %s" % (h, sched, observed, what))
+        if found:
+            print("VIOLATION property=C08 replay=(replayed) still reproduces")
+        return 1 if found else 0
     lines = rep.get("input") or []
     if not lines:
         print("replay file names no failing input:", rep.get("no_longer_checks"))
